@@ -77,7 +77,7 @@ func (ex *Exec) tvc(t *Thread) vclock {
 
 // syncOn: the current thread operates on synchronisation object key.
 func (ex *Exec) syncOn(key interface{}) {
-	if !ex.cfg.Races || key == nil {
+	if !ex.cfg.Races || key == nil || ex.killed {
 		return
 	}
 	t := ex.cur
